@@ -247,6 +247,7 @@ def run(chk):
                         break
     chk.mark("bad-files")
     alias_directive(chk, tmp)
+    defaults_block_order(chk, tmp)
     imported_file_edit(chk, tmp)
     bundled_paths(chk, tmp)
     shutil.rmtree(tmp, ignore_errors=True)
@@ -299,6 +300,41 @@ def alias_directive(chk, tmp):
                     diff = sorted(k for k in a if a[k] != b[k])
                     chk.diverge({"clause": "alias-directive-differs-from-inline", "path": path_kind, "case_insensitive": ci_registry or cs is False},
                                 {"probes": diff, "inline": {k: a[k] for k in diff}, "directive": {k: b[k] for k in diff}})
+
+
+def defaults_block_order(chk, tmp):
+    """@defaults: fields are read by their keys, whatever the order of the lines; two registries built from different *lines* sharing
+    one cache folder do not share answers"""
+    import pint
+    body = ["a = [A]", "b = 2 a", "c = 3 a", "@group everyday", "  d = 5 a", "@end", "@system mysys using everyday", "  b", "@end"]
+    for order in (("group = everyday", "system = mysys"), ("system = mysys", "group = everyday")):
+        for path_kind in ("lines", "file"):
+            chk.case(("defaults-order", order[0].split()[0], path_kind), nontrivial=True)
+            text = ["@defaults"] + ["    " + x for x in order] + ["@end"] + body
+            try:
+                u = load(path_kind, text, F, tmp)
+                got = {"system": u.default_system, "base_of_c": dict(u.Quantity(F(1), "c").to_base_units().unit_items()),
+                       "groups": sorted(g for g in u._groups if g != "root") if hasattr(u, "_groups") else None,
+                       "everyday": sorted(u.get_group("everyday").members)}
+            except Exception as e:
+                chk.diverge({"clause": "defaults-block-raises", "first": order[0].split()[0], "exc": type(e).__name__}, {"text": text})
+                continue
+            want_members = sorted(["a", "b", "c", "d"])            # units defined in no group join the default group
+            if got["system"] != "mysys" or got["base_of_c"] != {"b": 1} or got["everyday"] != want_members:
+                chk.diverge({"clause": "defaults-block", "first": order[0].split()[0], "path": path_kind}, {"text": text, "observed": {k: str(v) for k, v in got.items()}})
+    cache = os.path.join(tmp, "shared_lines_cache")
+    for T in (F, float):
+        chk.case(("shared-cache-lines", T.__name__), nontrivial=True)
+        try:
+            u1 = pint.UnitRegistry(["a = [A]", "b = 2 a"], non_int_type=T, cache_folder=cache)
+            u2 = pint.UnitRegistry(["a = [A]", "b = 7 a", "c = 3 b"], non_int_type=T, cache_folder=cache)
+            u3 = pint.UnitRegistry(["a = [A]", "b = 2 a"], non_int_type=T, cache_folder=cache)
+            got = [u1.get_root_units("b")[0], u2.get_root_units("b")[0], u2.get_root_units("c")[0], u3.get_root_units("b")[0], len(u2.get_compatible_units("a"))]
+        except Exception as e:
+            chk.diverge({"clause": "shared-cache-raises", "exc": type(e).__name__}, {})
+            continue
+        if [F(x) for x in got[:4]] != [F(2), F(7), F(21), F(2)] or got[4] != 3:
+            chk.diverge({"clause": "cache-shared-between-different-lines"}, {"observed": [str(x) for x in got]})
 
 
 def imported_file_edit(chk, tmp):
